@@ -1848,7 +1848,16 @@ def _divmod(ip, args, kwargs, node, fr):
 
 @builtin('reversed')
 def _reversed(ip, args, kwargs, node, fr):
-    return VReversed(resolve(ip, args[0]))
+    v = resolve(ip, args[0])
+    if isinstance(v, VList):
+        # the reversed list, materialised: element j is element n - 1 - j
+        if v.ek is None:
+            return VList(None, z3.IntVal(0), None)
+        j = z3.Int(ip.fresh_name('j'))
+        return VList(def_array(ip, j, z3.Select(v.arr, v.n - 1 - j), 'reversed'), v.n, v.ek)
+    if isinstance(v, VTuple):
+        return VTuple(tuple(reversed(v.items)))
+    return VReversed(v)
 
 
 @builtin('math.ceil')
